@@ -47,9 +47,11 @@ var c16Bodies = []string{
 	"\tprint(fint(1))",
 	"\tif gv == 8 {\n\t} else if gv == 9 {\n\t} else {\n\t}",
 	"\tswitch gv {\n\tcase 5:\n\tdefault:\n\t}",
+	"\tgv",
+	"\t\"lit\"\n\tgv + 1\n\t(gs)",
 }
 
-const c16Prelude = "gv := 3\ngs := \"g\"\nfunc fvoid() {\n\tprint(\"v\")\n}\nfunc fint(a int) int {\n\tif a > 1 {\n\t\treturn a\n\t}\n\tfor i := 0; i < 2; i++ {\n\t\tif i == a {\n\t\t\treturn i\n\t\t}\n\t}\n\treturn 0\n}\nfunc fmulti(a int) (int, string) {\n\treturn a + 1, \"m\"\n}\nfunc fempty() {\n}\n"
+const c16Prelude = "gv := 3\ngs := \"g\"\nfunc fvoid() {\n\tprint(\"v\")\n}\nfunc fint(a int) int {\n\tif a > 1 {\n\t\treturn a\n\t}\n\tfor i := 0; i < 2; i++ {\n\t\tif i == a {\n\t\t\treturn i\n\t\t}\n\t}\n\treturn 0\n}\nfunc fmulti(a int) (int, string) {\n\treturn a + 1, \"m\"\n}\nfunc fempty() {\n}\nfunc fexpr() {\n\tgv\n\ttrue\n}\n"
 
 type wfOutcome struct {
 	Kind   string
@@ -353,7 +355,7 @@ func CheckC16(r *Run) int {
 			}
 		}
 		for _, is := range o.Issues {
-			class := "C16." + strings.SplitN(is, " at line", 2)[0]
+			class := "C16." + strings.SplitN(normBashMsg(is), " at line", 2)[0]
 			if i := strings.Index(class, ":closing"); i > 0 {
 				class = class[:i]
 			}
@@ -415,4 +417,16 @@ func firstLines(s string, n int) string {
 		l = l[:n]
 	}
 	return strings.Join(l, " / ")
+}
+
+var bashMsgLoc = regexp.MustCompile(`/[^ :]*s\.sh: (line \d+: )?`)
+
+// normBashMsg removes the scratch path and the line number from a `bash -n` message, so that the class of a finding does not
+// depend on where the script was checked.
+func normBashMsg(s string) string {
+	s = bashMsgLoc.ReplaceAllString(s, "")
+	if i := strings.IndexByte(s, '\n'); i >= 0 {
+		s = s[:i]
+	}
+	return s
 }
